@@ -208,7 +208,9 @@ func (g *GcsEmu) handleGcsCompose(ctx context.Context, baseUrl HttpBaseUrl, w ht
 		}
 	}
 	var obj *storage.Object
+	verifYield("gcs.before-lock")
 	if err := g.locks.Run(ctx, lockName(bucket, dst.filename), func(_ context.Context) error {
+		verifYield("gcs.locked")
 		var err error
 		obj, err = g.finishCompose(baseUrl, bucket, dst, srcs, req.Destination)
 		return err
@@ -249,7 +251,9 @@ func (g *GcsEmu) handleGcsListBucket(ctx context.Context, baseUrl HttpBaseUrl, w
 }
 
 func (g *GcsEmu) handleGcsDelete(ctx context.Context, w http.ResponseWriter, bucket string, filename string, conds cloudstorage.Conditions) {
+	verifYield("gcs.before-lock")
 	err := g.locks.Run(ctx, lockName(bucket, filename), func(ctx context.Context) error {
+		verifYield("gcs.locked")
 		// Find the existing file / meta.
 		obj, err := g.store.GetMeta(dontNeedUrls, bucket, filename)
 		if err != nil {
@@ -352,7 +356,9 @@ func (g *GcsEmu) handleGcsMetadataRequest(baseUrl HttpBaseUrl, w http.ResponseWr
 
 func (g *GcsEmu) handleGcsUpdateMetadataRequest(ctx context.Context, baseUrl HttpBaseUrl, w http.ResponseWriter, r *http.Request, bucket, filename string, conds cloudstorage.Conditions) {
 	var obj *storage.Object
+	verifYield("gcs.before-lock")
 	err := g.locks.Run(ctx, lockName(bucket, filename), func(ctx context.Context) error {
+		verifYield("gcs.locked")
 		// Find the existing file / meta.
 		var err error
 		obj, err = g.store.GetMeta(baseUrl, bucket, filename)
@@ -424,7 +430,9 @@ func (g *GcsEmu) handleGcsCopy(ctx context.Context, baseUrl HttpBaseUrl, w http.
 
 	// Must lock the destination object.
 	var obj *storage.Object
+	verifYield("gcs.before-lock")
 	err := g.locks.Run(ctx, lockName(b2, f2), func(ctx context.Context) error {
+		verifYield("gcs.locked")
 		if ok, err := g.store.Copy(b1, f1, b2, f2); err != nil {
 			return err
 		} else if !ok {
@@ -652,7 +660,9 @@ func (g *GcsEmu) finishUpload(ctx context.Context, baseUrl HttpBaseUrl, obj *sto
 	}
 	obj.Md5Hash = md5Hash
 
+	verifYield("gcs.before-lock")
 	err := g.locks.Run(ctx, lockName(bucket, filename), func(ctx context.Context) error {
+		verifYield("gcs.locked")
 		// Find the existing file / meta.
 		existing, err := g.store.GetMeta(baseUrl, bucket, filename)
 		if err != nil {
